@@ -50,6 +50,10 @@ META_CONTRACTS = [clauses_only(c, META, "C16", "Meta") for c in (
     missing.FillNa, missing.SetNa, missing.CompressAxis, missing.DropNa1D, align.ReindexAxis, align.ReindexLike, reshape.Broadcast, arith.Comparison, arith.UnaryOperation)]
 
 
+# renaming with inplace=False (set_axis) leaves the receiver untouched (Rename is C05's contract; this clause of it is C15's)
+from . import wellformed as _wf
+FRAME_CONTRACTS.append(clauses_only(_wf.Rename, r"receiver-untouched", "C15", "Frame"))
+
 # Dataset construction and Dataset-wide operations leave their operands untouched (the clauses named operand:... / inputs-untouched)
 FRAME_CONTRACTS += [clauses_only(c, r"untouched|^operand", "C15", "Frame") for c in (
     dataset.DatasetTake, dataset.DatasetTakeAxis, dataset.DatasetScalarOp, dataset.DatasetReduce, dataset.DatasetJoin, dataset.DatasetConstruct, dataset.DatasetReindexAxis, dataset.DatasetDatasetOp)]
